@@ -1729,6 +1729,46 @@ func runFSCase(id string, spec *fsSpec) map[string]any {
 		}
 		out["parse_mem"] = mem
 	}
+	// (4) the in-memory API with HONEST copies of a part of the tree: the root and some of the referenced sub-workflow files
+	// are supplied by the caller under the very strings the loop steps use, with the text the context directory has for
+	// them; the others are only in the context directory.  Every transitively referenced file is where it was in (1), so
+	// the verdict has to be the one of (1).
+	if cls, _ := obs["class"].(string); (cls == "ok" || cls == "err") && obs["err_kind"] != "noroot" {
+		h := uint64(1099511628211)
+		for _, c := range []byte(id) {
+			h = (h ^ uint64(c)) * 1469598103934665603
+		}
+		supplied := map[string][]byte{fsRoot: []byte(realTexts[fsRoot])}
+		keys := []string{}
+		i := 0
+		for _, nm := range sortedKeys(spec.texts) {
+			for _, st := range obsAbs[nm].Steps {
+				if w := st.Workflow; w.IsStr {
+					i++
+					target, ok := realTexts[normTable[w.S]]
+					if !ok || (h>>(uint(i)%60))&1 == 0 {
+						continue
+					}
+					if _, dup := supplied[real(w.S)]; !dup {
+						supplied[real(w.S)] = []byte(target)
+						keys = append(keys, w.S)
+					}
+				}
+			}
+		}
+		part := map[string]any{"supplied": keys}
+		var perr error
+		g := guarded(fsWatchdog, func() { _, perr = eng.Parse(loadfile.NewFileCache(dir, supplied), fsRoot) })
+		part["class"] = classOf(g, perr)
+		if g.Panic != "" {
+			part["panic"], part["panic_site"] = clip(g.Panic, 1500), "engine.Parse(partly supplied):"+panicSite(g.Panic)
+		}
+		if perr != nil && g.Panic == "" && !g.Timeout {
+			part["err_kind"] = classifyParseErr(perr)
+			part["err"] = clip(placeholder(perr.Error()), 300)
+		}
+		out["parse_part"] = part
+	}
 	out["probe_balance"] = s.balance()
 	return out
 }
